@@ -60,6 +60,15 @@ class ArithBinaryToX86(RewritePattern):
             raise DiagnosticException(
                 f"Lowering of {op.name} not implemented for ShapedType"
             )
+        if (
+            new_type is x86.RS_ImulOp
+            and isinstance(lhs.type, builtin.FixedBitwidthType)
+            and lhs.type.bitwidth == 8
+        ):
+            # The two-operand form of imul has no 8-bit encoding.
+            raise DiagnosticException(
+                f"Lowering of {op.name} not implemented for 8-bit integers"
+            )
         rewriter.name_hint = op.results[0].name_hint
 
         lhs_x86, rhs_x86 = self.arch.cast_to_regs(op.operands, rewriter)
